@@ -2,6 +2,7 @@ package gerror
 
 import (
 	"fmt"
+	"reflect"
 )
 
 // GError is a base error type that can be extended and turned into a factory.
@@ -205,7 +206,7 @@ func (e *GError) Is(err error) bool {
 	}
 	if e == err ||
 		e.factoryRef != nil && e.factoryRef == err ||
-		e.srcError != nil && e.srcError == err {
+		e.srcError != nil && isComparable(err) && e.srcError == err {
 		return true
 	}
 	gerr, ok := err.(Error)
@@ -217,6 +218,12 @@ func (e *GError) Is(err error) bool {
 	}
 
 	return false
+}
+
+// isComparable reports whether err can be an operand of == without a run-time panic.
+// errors.Is applies the same guard to its target before comparing it.
+func isComparable(err error) bool {
+	return err != nil && reflect.TypeOf(err).Comparable()
 }
 
 func (e *GError) _embededGError() *GError {
